@@ -46,7 +46,23 @@ func genRev(r *rand.Rand, n int, tier string, out *bufio.Writer) {
 		total := len(head) + len(payload)
 		o.thr = pick(r, []int{1, len(head), total / 2, total, total + 1, 1 << 16})
 		date := pick(r, []string{"2017-03-06T04:03:53Z", "2017-03-06T04:03:53.123456789Z", "2017-03-06T06:03:53+02:00"})
-		fmt.Fprintf(out, "rev %s %d %s %s %s %s %d\n", o, rt, hxs(head), hx(payload), hxs(pick(r, profiles)), hxs(date), r.Intn(2))
+		// the original declares its payload digest itself, correct but spelled its own way:
+		// 0 not declared, 1 upper-case hex, 2 lower-case base32, 3 algorithm written SHA-1
+		fmt.Fprintf(out, "rev %s %d %s %s %s %s %d %d\n", o, rt, hxs(head), hx(payload), hxs(pick(r, profiles)), hxs(date), r.Intn(2), pick(r, []int{0, 0, 0, 1, 2, 3}))
+	}
+}
+
+// spelledDigest: the sha1 of data, correct, in a spelling the library accepts but would not write
+func spelledDigest(spelling int, data []byte) string {
+	switch spelling {
+	case 1:
+		d := refDigest("sha1", 1, data)
+		return "sha1:" + strings.ToUpper(strings.TrimPrefix(d, "sha1:"))
+	case 2:
+		d := refDigest("sha1", 2, data)
+		return "sha1:" + strings.ToLower(strings.TrimPrefix(d, "sha1:"))
+	default:
+		return "SHA-1:" + strings.TrimPrefix(refDigest("sha1", 2, data), "sha1:")
 	}
 }
 
@@ -60,6 +76,9 @@ func runRev(toks []string) (string, string) {
 	}
 	defer os.RemoveAll(dir)
 	fields := [][2]string{{"WARC-Date", date}, {"Content-Type", "application/http"}, {"WARC-Target-URI", "http://example.com/x"}}
+	if spelling := t.nextInt(); spelling > 0 {
+		fields = append(fields, [2]string{"WARC-Payload-Digest", spelledDigest(spelling, payload)})
+	}
 	var obs, verdict string
 	verdict = "OK"
 	p := catch(func() {
